@@ -1088,7 +1088,7 @@ def report_hits(ctx, hits):
         if (clause, cls) in seen:
             continue
         seen.add((clause, cls))
-        small = shrink(sc, clause, cls)
+        small = sc if str(sc.get('origin', '')).startswith('corpus:') else shrink(sc, clause, cls)
         msgs = [h[2] for h in check_one(small) if h[0] == clause and h[1] == cls] if small is not sc else [msg]
         ctx.violation(clause, {'site': site_of(clause), 'cls': cls},
                       {'kind': 'history', 'input': enc({k: v for k, v in small.items()}), 'observed': msgs[0] if msgs else msg,
